@@ -567,17 +567,139 @@ def reroute_body(case, ctx):
     ctx.nt(rc, sample=len(ctx.samples) < 2)
 
 
+class _TargetFailure(Exception):
+    pass
+
+
+def failing_cases():
+    return [['failing', mode, how, mw, wr] for mode in ('before-start', 'after-start', 'mid-body', 'wrapper-after-inner')
+            for how in ('endpoint', 'raise-endpoint', 'raise-middleware', 'raise-render') for mw in ('none', 'stats', 'guard')
+            for wr in ('none', 'header', 'lazy', 'pass')]
+
+
+def failing_body(case, ctx):
+    """reroute targets (and application-level WSGI wrappers) that fail *after* the response was started (round 14): whatever the
+    Application does about the failure - let it travel to the server, or report it through start_response(..., exc_info) as
+    PEP 3333 prescribes - it must not call start_response a second time without exc_info ("exactly once")"""
+    from clastic import Application, Route, Response, Middleware
+    from clastic.application import RerouteWSGI
+    _, mode, how, mw, wr = case
+    ctx.current = case
+
+    def target(environ, start_response):
+        if mode == 'before-start':
+            raise _TargetFailure('before start_response')
+        start_response('200 OK', [('Content-Type', 'text/zq')])
+        if mode == 'after-start':
+            raise _TargetFailure('after start_response')
+        if mode == 'mid-body':
+            def chunks():
+                yield b'first;'
+                raise _TargetFailure('while iterating')
+            return chunks()
+        return [b'whole body']
+    rr = RerouteWSGI(target)
+
+    class Raiser(Middleware):
+        def request(self, next):
+            raise rr
+
+    class Guard(Middleware):
+        def request(self, next):
+            try:
+                return next()
+            except Exception:
+                raise
+            finally:
+                pass
+    mws = []
+    if mw == 'stats':
+        from clastic.middleware.stats import StatsMiddleware
+        mws = [StatsMiddleware()]
+    elif mw == 'guard':
+        mws = [Guard()]
+
+    def ep_raise():
+        raise rr
+
+    def rn_raise(context):
+        raise rr
+    if how == 'endpoint':
+        route = Route('/go', rr, middlewares=mws)
+    elif how == 'raise-endpoint':
+        route = Route('/go', ep_raise, middlewares=mws)
+    elif how == 'raise-render':
+        route = Route('/go', lambda: {'c': 1}, rn_raise, middlewares=mws)
+    else:
+        route = Route('/go', lambda: Response('never'), middlewares=mws + [Raiser()])
+
+    def wsgi_wrapper(self, inner):
+        if mode == 'wrapper-after-inner':
+            def wrapped(environ, start_response):
+                list(inner(environ, start_response))
+                raise _TargetFailure('in the wrapper, after the inner application answered')
+        elif wr == 'header':
+            def wrapped(environ, start_response):
+                def sr(status, headers, exc_info=None):
+                    return start_response(status, list(headers) + [('X-Zq-Wrapper', 'header')], exc_info)
+                return inner(environ, sr)
+        elif wr == 'lazy':
+            def wrapped(environ, start_response):
+                for chunk in inner(environ, start_response):
+                    yield chunk
+        else:
+            def wrapped(environ, start_response):
+                return inner(environ, start_response)
+        return wrapped
+    wrappers = [] if (wr == 'none' and mode != 'wrapper-after-inner') else [type('ZqFWrap', (Middleware,), {'wsgi_wrapper': wsgi_wrapper})()]
+    app = Application([route], middlewares=wrappers)
+    calls = []
+
+    def start_response(status, headers, exc_info=None):
+        calls.append((status, exc_info is not None))
+        return lambda data: None
+    exc = None
+    try:
+        it = app(make_environ('/go', 'GET', ''), start_response)
+        try:
+            for _ in it:
+                pass
+        finally:
+            if hasattr(it, 'close'):
+                it.close()
+    except _TargetFailure as e:
+        exc = e
+    except Exception as e:
+        exc = e
+    ctx.requests += 1
+    plain = [c for c in calls if not c[1]]
+    what = 'GET /go rerouted (%s, route middleware %s, wrapper %s) to a target failing %s' % (how, mw, wr, mode)
+    if len(plain) > 1:
+        ctx.mismatch('start-response-twice', '%s: start_response was called %d times without exc_info: %r (exception seen by the server: %r)'
+                     % (what, len(plain), [c[0] for c in calls], exc), case)
+        return
+    if mode != 'before-start' and not plain:
+        ctx.mismatch('reroute-target-not-called', '%s: the target never got to start the response (%r)' % (what, exc), case)
+        return
+    ctx.event('reroute-failing-' + mode)
+    ctx.nt(case, sample=False)
+
+
 def shards(tier, seed):
     out = [{'part': 'kinds', 'variants': [v]} for v in [(False, False), (False, True), (True, False), (True, True)]]
     n = 150 if tier == 'quick' else 30000
     out += [{'part': 'stacks', 'n': n} for _ in range(6)]
     out += [{'part': 'reroute', 'n': n} for _ in range(6)]
+    out.append({'part': 'failing'})
     return out
 
 
 def run_shard(spec, ctx):
     if spec['part'] == 'kinds':
         run_kinds(spec, ctx)
+    elif spec['part'] == 'failing':
+        ctx.exhaustive = True
+        ctx.loop(failing_cases(), failing_body, kind='failing', max_sigs=6)
     elif spec['part'] == 'stacks':
         ctx.hyp(stack_strategy(), stack_body, spec['n'], kind='stack')
     else:
@@ -585,7 +707,9 @@ def run_shard(spec, ctx):
 
 
 def replay(case, kind, ctx):
-    if kind == 'stack' or (isinstance(case, dict) and 'outer' in case):
+    if kind == 'failing' or (isinstance(case, list) and case and case[0] == 'failing'):
+        failing_body(case, ctx)
+    elif kind == 'stack' or (isinstance(case, dict) and 'outer' in case):
         stack_body(case, ctx)
     elif kind == 'reroute' or isinstance(case, list):
         reroute_body(case, ctx)
